@@ -15,16 +15,19 @@ SPEC = {
         "calraw": ("mism_calraw", None),
         "page": ("mism_page", "pf_page"),
         "partition": (None, "pf_partition"),
+        "query": ("mism_query", "pf_query"),
+        "qorder": (None, "pf_qorder"),
     },
     "trusted_base": [
         "translator /verif/translator (Go->Gallina for visor.NewPageIndex, PageIndex.Cal), validated on this run against the implementation on the generated requests (also with sizes outside 1..100 through the verif export VerifPageIndex)",
         "Model/Paging.v `page`: Pagination = items[start:end] of Cal's result (hand-written, 6 lines), compared on this run with the real txnHashesContainer.Pagination through src/visor/verif_c29.go",
+        "Visor.GetTransactions (transactionModel and its confirmed / unconfirmed / full getters) is driven on a real node built by harness/nodekit (publisher visor on a bolt file, blocks made through the C05 hook VerifCreateBlock, unconfirmed pool filled by InjectForeignTransaction); each paged answer is compared with the unpaged answer of the same query",
         "a Go slice has fewer than 2^63 elements (len is an int)",
         "harness printer of inputs/outputs as Coq terms; error identity = sentinel variable",
     ],
     "assumptions": [
         "list length < 2^63 (Go int); page size and page number are uint64",
-        "the sorted, de-duplicated result list handed to Pagination is the same for every page request (ordering/filtering is the subject of C07); Visor.GetTransactions and the HTTP handler are not driven by this check, only NewPageIndex/Cal/Pagination which they call",
+        "which transactions a query selects is the subject of C07; here the unpaged answer of the query is the reference list (checked ordered by block seq / hash), and the HTTP handler is not driven",
     ],
 }
 
